@@ -25,7 +25,7 @@ LEVEL = "model_checking"
 
 ORIGIN = dns.name.from_text("example.")
 F = dns.btreezone.NodeFlags
-NAMES = ["@", "a", "b.a", "c.b.a", "d", "x.d"]
+NAMES = ["@", "a", "b.a", "c.b.a", "_d", "x._d"]
 RD = {
     "NS": dns.rdata.from_text("IN", "NS", "ns.other."),
     "A": dns.rdata.from_text("IN", "A", "10.0.0.1"),
@@ -46,42 +46,60 @@ def spelled(key, form):
 
 
 # ------------------------------------------------------------------ reference
+def ckey(name):
+    """RFC 4034 s6.1 canonical ordering key, independent of dns.name comparisons: labels right
+    to left, octets with only A-Z folded to lower case, a prefix sorts first."""
+    return tuple(bytes(c + 32 if 0x41 <= c <= 0x5A else c for c in lab) for lab in reversed(name.labels))
+
+
+def below(n, d):
+    """n is d or beneath d (independent of Name.is_subdomain)."""
+    kn, kd = ckey(n), ckey(d)
+    return len(kn) >= len(kd) and kn[:len(kd)] == kd
+
+
 def ref_derived(content):
     """content: {absolute Name: set(type text)} -> (flags dict, delegation set)."""
-    ns_owners = {n for n, ts in content.items() if "NS" in ts and n != ORIGIN}
-    delegations = {n for n in ns_owners
-                   if not any(m != n and n.is_subdomain(m) for m in ns_owners)}
+    okey = ckey(ORIGIN)
+    ns_keys = {ckey(n) for n, ts in content.items() if "NS" in ts and ckey(n) != okey}
+
+    def has_proper_ancestor_in(k, keys):
+        return any(k[:i] in keys for i in range(len(okey) + 1, len(k)))
+
+    dkeys = {k for k in ns_keys if not has_proper_ancestor_in(k, ns_keys)}
+    delegations = {n for n in content if ckey(n) in dkeys}
     flags = {}
     for n in content:
+        k = ckey(n)
         f = 0
-        if n == ORIGIN:
+        if k == okey:
             f |= int(F.ORIGIN)
-        if n in delegations:
+        if k in dkeys:
             f |= int(F.DELEGATION)
-        if any(n != d and n.is_subdomain(d) for d in delegations):
+        if has_proper_ancestor_in(k, dkeys):
             f |= int(F.GLUE)
         flags[n] = f
     return flags, delegations
 
 
-def ref_bounds(content, q):
-    flags, delegations = ref_derived(content)
+def ref_bounds(content, q, derived=None):
+    flags, delegations = derived if derived is not None else ref_derived(content)
     cut = None
     for d in delegations:
-        if q.is_subdomain(d):
+        if below(q, d):
             cut = d
-    visible = sorted(n for n in content if not (flags[n] & int(F.GLUE)))
+    visible = sorted((n for n in content if not (flags[n] & int(F.GLUE))), key=ckey)
     if cut is not None:
         left = cut
     else:
-        le = [n for n in visible if n <= q]
+        le = [n for n in visible if ckey(n) <= ckey(q)]
         left = le[-1] if le else None
-    gt = [n for n in visible if n > q]
+    gt = [n for n in visible if ckey(n) > ckey(q)]
     right = gt[0] if gt else None
     ce = None
     a = q
     while True:
-        if a in visible or any(v != a and v.is_subdomain(a) for v in visible):
+        if a in visible or any(ckey(v) != ckey(a) and below(v, a) for v in visible):
             ce = a
             break
         if a == ORIGIN or len(a) <= len(ORIGIN):
@@ -181,7 +199,7 @@ def queries():
         qs.append(n)
         qs.append(dns.name.from_text("0", n))
         qs.append(dns.name.from_text("zz", n))
-    for extra in ("aa", "b", "e", "c.a", "y.c.b.a", "b.d", "0.x.d", "*"):
+    for extra in ("aa", "b", "e", "c.a", "y.c.b.a", "b._d", "0.x._d", "*", "[", "Z", "_"):
         qs.append(dns.name.from_text(extra, ORIGIN))
     seen, out = set(), []
     for q in qs:
@@ -231,12 +249,12 @@ def check_state(z, content_model, relativize, probs):
             cls.append("missing-" + name_class(sorted(missing)[0], content, fref, dref))
         probs.append(("delegation-index/" + "+".join(cls), "index %s, definition gives %s; content %s" % (
             sorted(map(str, dele)), sorted(map(str, dref)), fmt(content))))
-    if order != sorted(content):
+    if order != sorted(content, key=ckey):
         probs.append(("iteration-order", "iteration %s is not canonical order" % list(map(str, order))))
     # bounds
     v = z._versions[-1]
     for q in QUERIES:
-        exp = ref_bounds(content, q)
+        exp = ref_bounds(content, q, (fref, dref))
         for form in ("abs", "rel"):
             qq = q if form == "abs" else q.relativize(ORIGIN)
             try:
@@ -311,6 +329,8 @@ def run_case(case):
 
 
 def recheck(case):
+    if case.get("mode") == "large":
+        return [("C20/" + s, w) for s, w in run_large(case)]
     probs, _ = run_case(case)
     suffix = "/origin-from-$ORIGIN" if case.get("mode") == "textload" and not case.get("origin_given") else ""
     return [("C20/" + s + suffix, w) for s, w in probs]
@@ -326,7 +346,7 @@ def single_ops():
         ops.append(("add", k, "A"))
         ops.append(("del", k, "A"))
     ops.append(("add", "a", "CNAME"))
-    ops.append(("replace", "d", "CNAME"))
+    ops.append(("replace", "_d", "CNAME"))
     ops.append(("add", "b.a", "CNAME"))
     ops.append(("add", "a", "DS"))
     ops.append(("del", "a", "DS"))
@@ -338,7 +358,7 @@ def expand(state, col):
     rel, history, pairs = state
     ops = single_ops()
     txns = [((op, "rel"),) for op in ops] + [((op, "abs"),) for op in ops[::3]]
-    for recs in ((), (("d", "NS"),), (("b.a", "A"), ("a", "A")), (("c.b.a", "NS"), ("x.d", "A")), (("a", "NS"), ("b.a", "NS"))):
+    for recs in ((), (("_d", "NS"),), (("b.a", "A"), ("a", "A")), (("c.b.a", "NS"), ("x._d", "A")), (("a", "NS"), ("b.a", "NS"))):
         txns.append(((("reload", recs), "rel"),))
     if pairs and len(history) <= 1:
         txns += [((a, "rel"), (b, "rel")) for a in ops for b in ops if a[1] != b[1] or a[0] != b[0]]
@@ -355,6 +375,87 @@ def expand(state, col):
             yield (rel, cn), (rel, h2, pairs)
     if len(history) == 2:
         col.sample({"relativize": rel, "history": [[[list(o), f] for o, f in tt] for tt in history]}, limit=2)
+
+
+def version_problems(v, rel, content, queries, tag):
+    """Derived state of ONE (possibly older, pinned) version against the reference."""
+    probs = []
+    fref, dref = ref_derived(content)
+    dele = {n.derelativize(ORIGIN) for n in v.delegations}
+    if dele != dref:
+        probs.append((tag + "/delegation-index", "index has %d entries, definition gives %d (missing e.g. %s, extra e.g. %s)" % (
+            len(dele), len(dref), sorted(map(str, dref - dele))[:2], sorted(map(str, dele - dref))[:2])))
+    names = [n.derelativize(ORIGIN) for n in v.nodes.keys()]
+    if names != sorted(content, key=ckey):
+        probs.append((tag + "/names", "names of the version are not the content in canonical order (%d vs %d names)" % (len(names), len(content))))
+    for n, node in v.nodes.items():
+        a = n.derelativize(ORIGIN)
+        if a in fref and int(node.flags) != fref[a]:
+            probs.append((tag + "/flags", "node %s has flags %s, definition %s" % (a, fl(int(node.flags)), fl(fref[a]))))
+            break
+    for q in queries:
+        exp = ref_bounds(content, q, (fref, dref))
+        try:
+            b = v.bounds(q if not rel else q.relativize(ORIGIN))
+        except Exception as e:
+            probs.append((tag + "/bounds-crash/" + type(e).__name__, "bounds(%s) raised %r" % (q, e)))
+            continue
+        got = {"left": b.left.derelativize(ORIGIN), "right": None if b.right is None else b.right.derelativize(ORIGIN),
+               "is_delegation": b.is_delegation}
+        for k in got:
+            if got[k] != exp[k]:
+                probs.append((tag + "/bounds-" + k, "bounds(%s).%s = %s, definition %s" % (q, k, got[k], exp[k])))
+    return probs
+
+
+def run_large(case):
+    """Many delegation points (around the sizes at which nodes of the default-branching-factor
+    B-trees fill up): a reader pins version 1, a later transaction adds cuts; both the pinned
+    and the new version must have exactly the derived state their own content defines."""
+    n, rel, commit = case["n"], case["relativize"], case["commit"]
+    z = dns.btreezone.Zone(ORIGIN, relativize=rel)
+    content = {ORIGIN: {"SOA", "NS"}}
+    with z.writer(True) as txn:
+        txn.add(spelled("@", "rel"), 10, RD["SOA"])
+        txn.add(spelled("@", "rel"), 10, RD["NS"])
+        for i in range(n):
+            key = "d%04d" % i
+            txn.add(spelled(key, "rel"), 10, RD["NS"])
+            content[absname(key)] = {"NS"}
+    old = z._versions[-1]
+    rd = z.reader()
+    txn = z.writer()
+    newc = {k: set(v) for k, v in content.items()}
+    for key in case["add"]:
+        txn.add(spelled(key, "rel"), 10, RD["NS"])
+        newc[absname(key)] = {"NS"}
+    if commit:
+        txn.commit()
+    else:
+        txn.rollback()
+    qs = [absname(k) for k in ("d0000", "d%04d" % (n // 2), "d%04d" % (n - 1), "zz", "x.d%04d" % (n // 2), "d0100x")]
+    probs = version_problems(old, rel, content, qs, "large/pinned-version")
+    cur = z._versions[-1]
+    probs += version_problems(cur, rel, newc if commit else content, qs, "large/newest-version")
+    rd.rollback()
+    return probs
+
+
+def _large_task(task, col):
+    n, rel = task
+    for add in (["d9999"], ["d0100x"], ["d0100x", "d9999", "a0"]):
+        for commit in (True, False):
+            case = {"mode": "large", "n": n, "relativize": rel, "commit": commit, "add": add}
+            try:
+                probs = run_large(case)
+            except Exception as e:
+                probs = [("large/" + crash_sig(e), repr(e))]
+            col.count("evaluations")
+            col.count("large_cases")
+            col.outcome("large:" + (probs[0][0] if probs else "ok"))
+            col.nontrivial(("large", n, rel, tuple(add), commit))
+            for s, w in probs:
+                col.violation("C20/" + s, w + " [%d delegations, relativize=%s, add %s, %s]" % (n, rel, add, "commit" if commit else "rollback"), case)
 
 
 def _load_task(task, col):
@@ -394,7 +495,7 @@ def run(ctx):
     ctx.extra["two_op_transactions_at_depth_le_1"] = not ctx.quick
     engines.bfs(ctx, init, expand, max_depth=depth)
     ctx.caps[:] = []   # the depth bound is the stated bound
-    pool = [("a", "NS"), ("b.a", "NS"), ("c.b.a", "A"), ("a", "A"), ("b.a", "A"), ("d", "NS"), ("x.d", "A"), ("c.b.a", "NS")]
+    pool = [("a", "NS"), ("b.a", "NS"), ("c.b.a", "A"), ("a", "A"), ("b.a", "A"), ("_d", "NS"), ("x._d", "A"), ("c.b.a", "NS")]
     k = ctx.pick(4, 5)
     ctx.extra["load_pool"] = len(pool)
     ctx.extra["load_max_records"] = k
@@ -404,4 +505,7 @@ def run(ctx):
             for rel in (True, False):
                 tasks.append((rel, recs, "rel" if rel else "abs"))
     ctx.pmap(_load_task, tasks, chunksize=8)
+    sizes = ctx.pick([127, 253, 254, 380, 381], [126, 127, 128, 252, 253, 254, 255, 380, 381, 382, 507, 508])
+    ctx.extra["large_delegation_counts"] = sizes
+    ctx.pmap(_large_task, [(n, rel) for n in sizes for rel in (True, False)])
     ctx.counts["traces_validated_against_impl"] = ctx.counts.get("evaluations", 0)
